@@ -1,11 +1,11 @@
 (* C16 - The checker never cries wolf and is exact about variable names.
-   Statements only; proofs in Proofs/CheckProofs.v, NamesProofs.v and NamesScript.v. The second
-   headline claim (exactness about names) is proved for whole programs (C16_program_names); the
-   first (no error on a valid script) is judged on every run by evaluating, inside Coq, the independent specifications
+   Statements only; proofs in Proofs/CheckProofs.v, NamesProofs.v, NamesScript.v, ValidProofs.v and
+   ValidScript.v. Both headline claims are proved for whole programs (C16_no_false_error,
+   C16_program_names); they are also judged on every run by evaluating, inside Coq, the independent specifications
    Spec/Names.v (events, unbound_uses, duplicate_decls, unused_decls) and Spec/Typing.v (valid) on
    the implementation's diagnostics; the theorems below tie the tables the checker model uses to
    the code and prove the name bookkeeping of the model. *)
-From NS Require Import Check CheckProofs NamesProofs Names NamesScript Typing ValidProofs.
+From NS Require Import Check CheckProofs NamesProofs Names NamesScript Typing ValidProofs ValidScript.
 From NS Require Tables.
 
 (* severities and built-in signatures are the ones the code declares (tables regenerated from
@@ -49,8 +49,18 @@ Theorem C16_expression_no_false_error : forall te e t s,
   agrees te s -> has_type te e t = true -> silent (check_expression e t s) s.
 Proof. exact has_type_silent. Qed.
 
+(* no false error, whole scripts: a script that is valid by the declarative static rules of
+   Spec/Typing.v (every expression has the type its position requires given the declared types and
+   the built-in signatures, allotment portions add up, send-all sources are bounded, declarations
+   are distinct with allowed types and origins well-typed under the earlier declarations) receives
+   no error-severity diagnostic *)
+Theorem C16_no_false_error : forall p s,
+  valid p = true -> check_default p [] = Ok s -> errors_count (cs_diags s) = O.
+Proof. exact valid_no_error. Qed.
+
 Print Assumptions C16_severity_table.
 Print Assumptions C16_program_names.
+Print Assumptions C16_no_false_error.
 Print Assumptions C16_expression_no_false_error.
 Print Assumptions C16_expression_names.
 
